@@ -243,10 +243,10 @@ def classOf (cases : List SwitchCase) (a : ApiMethods) : Option RClass :=
   | some _ => none
   | none => some .anyBroker
 
-/-- tail of sendRequest: `brokerID >= 0` → grabBrokerConn (BrokerNotAvailable if the pool has no
+/-- tail of sendRequest: the regenerated guard (`Gen.Routing.usesBrokerConn`, today `brokerID >= 0`) → grabBrokerConn (BrokerNotAvailable if the pool has no
 connection group for it), else the control connection -/
 def sendTarget (conns : List (Int × Addr)) (brokerID : Int) : Target :=
-  if brokerID ≥ 0 then
+  if KV.Gen.Routing.usesBrokerConn brokerID then
     match conns.lookup brokerID with
     | some addr => .broker brokerID addr
     | none => .err .brokerNotAvailable
@@ -348,6 +348,19 @@ structure PoolState where
 
 def keys {κ ν : Type} (m : List (κ × ν)) : List κ := m.map (·.1)
 
+/-- did the broker entry change?  The comparison itself is regenerated from the source (`Gen.Routing.updateCompare`) -/
+def brokersDiffer : KV.Gen.Routing.BrokerCompare → Broker → Broker → Bool
+  | .whole, b1, b2 => b1 != b2
+  | .fields fs, b1, b2 =>
+    (fs.contains "ID" && b1.id != b2.id) || (fs.contains "Host" && b1.host != b2.host) ||
+    (fs.contains "Port" && b1.port != b2.port) || (fs.contains "Rack" && b1.rack != b2.rack)
+  | .other, b1, b2 => b1 != b2
+
+/-- `b1` (cached) against the new entry under the same id (`none`: not in the new layout) -/
+def differs (b1 : Broker) : Option Broker → Bool
+  | some b2 => brokersDiffer KV.Gen.Routing.updateCompare b1 b2
+  | none => true
+
 /-- (*connPool).update(metadata, err): a broker whose entry (id, host, port, rack) differs from the cached one in
 any field has its group closed and re-created at the new address (`b1 != b2` on the whole struct) -/
 def update (s : PoolState) (m : Option MResponse) (err : Bool) : PoolState :=
@@ -359,11 +372,11 @@ def update (s : PoolState) (m : Option MResponse) (err : Bool) : PoolState :=
     let add := (keys layout.brokers).filter (fun id =>
       match s.layout.brokers.lookup id with
       | none => true
-      | some b1 => some b1 != layout.brokers.lookup id)
+      | some b1 => differs b1 (layout.brokers.lookup id))
     let del := ((keys layout.brokers).filter (fun id =>
       match s.layout.brokers.lookup id with
       | none => false
-      | some b1 => some b1 != layout.brokers.lookup id)) ++
+      | some b1 => differs b1 (layout.brokers.lookup id))) ++
       ((keys s.layout.brokers).filter (fun id => (layout.brokers.lookup id).isNone))
     { metadata := m', layout := layout, err := false,
       conns := (s.conns.filter (fun e => !del.contains e.1)) ++
